@@ -163,6 +163,33 @@ Theorem C15_biomass_mixed_without_output : forall ep v nb fr,
   biomass_out (ep_data ep) BIOMASA = Err WrongInput -> fraccion_renovable_acs_nrb ep = Err WrongInput.
 Proof. intros. eapply dhw_biomass_mixed_without_output; eassumption. Qed.
 
+(** both kinds of biomass (whatever the other carriers): the output energy declared for each kind, weighted with the
+    renewable fraction of that kind *)
+Theorem C15_two_biomasses : forall ep v,
+  nd_ACS (ep_needs ep) = Some v -> ~ qabs (qsum v) < f32_epsilon ->
+  dhw_used_by_cr ep <> nil -> aget (dhw_used_by_cr ep) ELECTRICIDAD = None ->
+  match aget (dhw_used_by_cr ep) EAMBIENTE with Some A => qfrac 1 100 <= A | None => True end ->
+  ahas (dhw_used_by_cr ep) BIOMASA = true -> ahas (dhw_used_by_cr ep) BIOMASADENSIFICADA = true ->
+  qsum (map vals_sum (filter (fun e => is_used e && has_carrier EAMBIENTE e && contains (e_cmt e) TAG_EXCLUYE_SCOP) (ep_data ep))) = 0 ->
+  t_used_src_srv_opt ep EL_INSITU ACS = 0 ->
+  fraccion_renovable_acs_nrb ep
+  = (do nb <- q_nrb_non_biomass (ep_factors ep) (dhw_used_by_cr ep);
+     do fb <- ren_fraction (ep_factors ep) BIOMASA; do ob <- biomass_out (ep_data ep) BIOMASA;
+     do fd <- ren_fraction (ep_factors ep) BIOMASADENSIFICADA; do od <- biomass_out (ep_data ep) BIOMASADENSIFICADA;
+     Ok ((snd nb + (ob * fb + od * fd)) / qsum v)).
+Proof. intros. eapply dhw_biomass_both; eassumption. Qed.
+
+Theorem C15_two_biomasses_without_output : forall ep v nb fb,
+  nd_ACS (ep_needs ep) = Some v -> ~ qabs (qsum v) < f32_epsilon ->
+  dhw_used_by_cr ep <> nil -> aget (dhw_used_by_cr ep) ELECTRICIDAD = None ->
+  match aget (dhw_used_by_cr ep) EAMBIENTE with Some A => qfrac 1 100 <= A | None => True end ->
+  ahas (dhw_used_by_cr ep) BIOMASA = true -> ahas (dhw_used_by_cr ep) BIOMASADENSIFICADA = true ->
+  qsum (map vals_sum (filter (fun e => is_used e && has_carrier EAMBIENTE e && contains (e_cmt e) TAG_EXCLUYE_SCOP) (ep_data ep))) = 0 ->
+  t_used_src_srv_opt ep EL_INSITU ACS = 0 ->
+  q_nrb_non_biomass (ep_factors ep) (dhw_used_by_cr ep) = Ok nb -> ren_fraction (ep_factors ep) BIOMASA = Ok fb ->
+  biomass_out (ep_data ep) BIOMASA = Err WrongInput -> fraccion_renovable_acs_nrb ep = Err WrongInput.
+Proof. intros. eapply dhw_biomass_both_without_output; eassumption. Qed.
+
 Print Assumptions C15_no_demand.
 Print Assumptions C15_zero_demand.
 Print Assumptions C15_k_independent.
@@ -176,3 +203,5 @@ Print Assumptions C15_heat_pump.
 Print Assumptions C15_biomass_nearby.
 Print Assumptions C15_biomass_mixed.
 Print Assumptions C15_biomass_mixed_without_output.
+Print Assumptions C15_two_biomasses.
+Print Assumptions C15_two_biomasses_without_output.
